@@ -7,9 +7,11 @@ import itertools
 from drive import RULES, GREG, MEEK
 
 
-def randprofile(rng, minc=2, maxc=7, maxlines=12, maxm=4, wd=False, und=False, full=False, eq=False, seats=None):
-    nc = rng.randint(minc, maxc)
+def randprofile(rng, minc=2, maxc=7, maxlines=12, maxm=4, wd=False, und=False, full=False, eq=False, seats=None, wdmin=0):
+    nc = rng.randint(max(minc, wdmin + 2), max(maxc, wdmin + 2))
     withdrawn = [c for c in range(1, nc + 1) if wd and rng.random() < 0.15]
+    while len(withdrawn) < wdmin:
+        withdrawn = sorted(set(withdrawn) | {rng.randint(1, nc)})
     if len(withdrawn) >= nc - 1:
         withdrawn = []
     elig = [c for c in range(1, nc + 1) if c not in withdrawn]
@@ -262,7 +264,55 @@ def sliverprofile(rng):
     return dict(nc=nc, seats=seats, lines=lines, tie=tie, withdrawn=[], undeclared=[], eqlines=[])
 
 
-SHAPES = dict(prior=priorprofile, bullet=bulletprofile, exact=exactprofile, sliver=sliverprofile, random=randprofile, tie=tieprofile, quota=quotaprofile, chain=chainprofile, coalition=coalitionprofile)
+def reversalprofile(rng):
+    "two candidates whose relative order REVERSES across earlier stages and who then tie for exclusion (which prior stage decides?)"
+    nc = rng.randint(5, 6)
+    order = list(range(1, nc + 1))
+    rng.shuffle(order)
+    A, B, C, D1, D2 = order[:5]
+    a = rng.randint(3, 5)
+    b = a + 1
+    d1 = rng.randint(2, 3)             # D1's papers all go to A: A overtakes B
+    d2 = d1 + 1                        # D2 is excluded after D1; a+d1-b of its papers go to B (tie), the rest to C
+    tob = a + d1 - b
+    lines = [(a, [A]), (b, [B]), (a + d1 + d2 + 2, [C]), (d1, [D1, A]), (tob, [D2, B]), (d2 - tob, [D2, C])]
+    if nc == 6:
+        lines.append((1, [order[5], C]))
+    lines = [l for l in lines if l[0] > 0]
+    rng.shuffle(lines)
+    tie = list(range(1, nc + 1))
+    rng.shuffle(tie)
+    return dict(nc=nc, seats=1, lines=lines, tie=tie, withdrawn=[], undeclared=[], eqlines=[])
+
+
+def writeinprofile(rng):
+    "mpls: an undeclared write-in with a few votes, and close certain-loser decisions in later rounds"
+    nc = rng.randint(5, 6)
+    order = list(range(1, nc + 1))
+    rng.shuffle(order)
+    W = order[-1]
+    decl = order[:-1]
+    w = rng.randint(1, 3)
+    top = rng.randint(9, 12)
+    tallies = [top]
+    for _ in decl[1:]:
+        tallies.append(max(1, tallies[-1] - rng.randint(1, 3)))
+    lines = []
+    for c, t in zip(decl, tallies):
+        others = [x for x in decl if x != c]
+        k = rng.randint(0, t)
+        if k:
+            lines.append((k, [c]))
+        if t - k:
+            lines.append((t - k, [c, rng.choice(others)]))
+    lines.append((w, [W, rng.choice(decl[1:3])]))
+    rng.shuffle(lines)
+    tie = list(range(1, nc + 1))
+    rng.shuffle(tie)
+    return dict(nc=nc, seats=rng.choice([1, 2, 2]), lines=lines, tie=tie, withdrawn=[], undeclared=[W], eqlines=[])
+
+
+SHAPES = dict(reversal=reversalprofile, writein=writeinprofile, prior=priorprofile, bullet=bulletprofile, exact=exactprofile, sliver=sliverprofile, random=randprofile, tie=tieprofile, quota=quotaprofile, chain=chainprofile, coalition=coalitionprofile)
 
 # configurations whose numbers fit TLC's 32-bit integers for small electorates
 WIGM_ARITH = [
@@ -275,6 +325,10 @@ WIGM_ARITH = [
     {'arithmetic': 'guarded', 'precision': 4, 'guard': 0},
     {'arithmetic': 'fixed', 'precision': 1, 'integer_quota': True},
     {'arithmetic': 'fixed', 'precision': 3, 'defeat_batch': 'zero'},
+    {'arithmetic': 'fixed', 'precision': 4, 'display': 2},
+    {'arithmetic': 'guarded', 'precision': 3, 'guard': 0, 'display': 1},
+    {'arithmetic': 'guarded', 'precision': 3, 'guard': 2, 'integer_quota': True},
+    {'arithmetic': 'rational', 'integer_quota': True},
 ]
 MEEK_ARITH = [
     {'arithmetic': 'fixed', 'precision': 3},
@@ -283,6 +337,7 @@ MEEK_ARITH = [
     {'arithmetic': 'guarded', 'precision': 4, 'guard': 2},
     {'arithmetic': 'guarded', 'precision': 3, 'guard': 0},
     {'arithmetic': 'guarded', 'precision': 2, 'guard': 2, 'omega': 1},
+    {'arithmetic': 'fixed', 'precision': 4, 'display': 1, 'omega': 2},
 ]
 WARREN_ARITH = [
     {'arithmetic': 'fixed', 'precision': 3},
